@@ -1,17 +1,17 @@
 #!/bin/bash
-# usage: try_seed.sh <patch.diff> [props...]  — applies the patch to /repo, runs the quick checks, reverts.
+# usage: try_seed.sh <patch.diff> [props...]  — applies the patch to a scratch copy of /repo (never to /repo itself), runs the
+# quick checks against the copy (VERIF_REPO; evidence diverted to out/tryruns so evidence/ keeps describing the real tree), drops the copy.
 P=$1; shift
 PROPS=${@:-C01 C02 C03 C04 C05 C06 C07 C08 C09 C10 C11 C12 C13 C14 C15 C16 C17 C18 C19 C20}
-cd /repo
-if ! git diff --quiet; then echo "/repo has uncommitted changes; refusing"; exit 2; fi
-git apply "$P" || { echo "patch does not apply"; exit 2; }
+D=$(/verif/tools/scratch_repo.sh make) || exit 2
+trap '/verif/tools/scratch_repo.sh drop "$D"' EXIT
+(cd "$D" && patch -p1 -s --no-backup-if-mismatch < "$P") || { echo "patch does not apply"; exit 2; }
 cd /verif
+mkdir -p out/tryruns
 for p in $PROPS; do
-  out=$(./check $p --tier quick 2>&1); rc=$?
+  out=$(VERIF_REPO="$D" VERIF_EVIDENCE_DIR=/verif/out/tryruns ./check $p --tier quick 2>&1); rc=$?
   if [ $rc -ne 0 ]; then
     echo "== $p rc=$rc"; echo "$out" | grep -E "^  [a-z].*\[R-|ANALYSIS-BROKEN|VIOLATION" | cut -c1-260 | head -8
   fi
 done
-git -C /repo checkout -- .
-git -C /repo status --short | grep -v "^??" | head -3
-echo "-- reverted"
+echo "-- scratch copy dropped; /repo untouched"
